@@ -1135,15 +1135,81 @@ theorem invG_step (s : St) (t : Tid) (e : Ev) (s' : St) (hl : InvL s) (h : InvG 
     exact invG_setInactive h hpc rfl rfl rfl rfl rfl rfl rfl
   case h_43 => contradiction
 
+/-! ## generic facts about one step, and `InvT` (a waiter that saw `true` under the mutex) -/
+
+/-- normal form of an accepted step: fully split, successor state explicit -/
+macro "stepcases" hs:ident : tactic =>
+  `(tactic| (unfold step at $hs:ident; unfold St.acquire St.release at $hs:ident
+             (repeat' split at $hs:ident)
+             all_goals (first | contradiction | (injection $hs:ident with $hs:ident; subst $hs:ident))))
+
+/-- same, with the continuation of the nested `trigger()` call split as well -/
+macro "stepcasesx" hs:ident : tactic =>
+  `(tactic| (unfold step at $hs:ident; unfold St.acquire St.release Ctx.after at $hs:ident
+             (repeat' split at $hs:ident)
+             all_goals (first | contradiction | (injection $hs:ident with $hs:ident; subst $hs:ident))))
+
+theorem step_pc_other {s s' : St} {t u : Tid} {e : Ev} (hs : step s t e = some s') (hu : u ≠ t) :
+    s'.pc u = s.pc u := by
+  stepcases hs
+  all_goals simp [St.setPc, hu]
+
+theorem step_flag {s s' : St} {t : Tid} {e : Ev} {m : Side} (hs : step s t e = some s')
+    (hne : s'.flag m ≠ s.flag m) : (s.pc t).holds m = true := by
+  stepcases hs
+  all_goals (first | (exact absurd rfl hne) | skip)
+  all_goals (rename_i hpc; simp [hpc, Pc.holds]; simp [updS_apply] at hne; (try split at hne) <;> simp_all)
+
+/-- holds mutex `m` and knows flag `m` is true -/
+def Pc.sawTrue (m : Side) : Pc → Bool
+  | .wUnlock k true => decide (k.side = m)
+  | _ => false
+
+def InvT (s : St) : Prop := ∀ m t, (s.pc t).sawTrue m = true → s.flag m = true
+
+theorem sawTrue_holds {p : Pc} {m : Side} (h : p.sawTrue m = true) : p.holds m = true := by
+  cases p <;> simp [Pc.sawTrue] at h <;> simp [Pc.holds]
+  all_goals (rename_i r; cases r <;> simp [Pc.sawTrue] at h <;> exact h)
+
+@[simp] theorem after_sawTrue (x : Ctx) (r : Bool) (m : Side) : (x.after r).sawTrue m = false := by
+  cases x <;> rfl
+
+@[simp] theorem after_ne_wUnlock (x : Ctx) (r r' : Bool) (k : WKind) : (x.after r = Pc.wUnlock k r') = False := by
+  cases x <;> simp [Ctx.after]
+
+theorem step_sawTrue {s s' : St} {t : Tid} {e : Ev} {m : Side} (hs : step s t e = some s')
+    (hx : (s'.pc t).sawTrue m = true) : s'.flag m = true := by
+  stepcases hs
+  all_goals (simp [St.setPc, Pc.sawTrue] at hx)
+  all_goals (try (split at hx <;> simp [Pc.sawTrue] at hx))
+  all_goals (try simp only [St.setPc])
+  all_goals (first | (simp_all; done) | grind)
+
+theorem invT_step (s : St) (t : Tid) (e : Ev) (s' : St) (hl : InvL s) (h : InvT s)
+    (hs : step s t e = some s') : InvT s' := by
+  intro m u hx
+  by_cases hut : u = t
+  · subst hut; exact step_sawTrue hs hx
+  · rw [step_pc_other hs hut] at hx
+    have hf := h m u hx
+    by_cases hne : s'.flag m = s.flag m
+    · rw [hne]; exact hf
+    · exact absurd (holder_unique hl (step_flag hs hne) (sawTrue_holds hx)) hut
+
+
+theorem invT_init (a : Bool) : InvT (init a) := by
+  intro m t hx; simp [init, Pc.sawTrue] at hx
+
 /-- the full invariant -/
 structure Inv (s : St) : Prop where
   l : InvL s
   g : InvG s
+  t : InvT s
 
-theorem inv_init (a : Bool) : Inv (init a) := ⟨invL_init a, invG_init a⟩
+theorem inv_init (a : Bool) : Inv (init a) := ⟨invL_init a, invG_init a, invT_init a⟩
 
 theorem inv_step (s : St) (t : Tid) (e : Ev) (s' : St) (h : Inv s) (hs : step s t e = some s') : Inv s' :=
-  ⟨invL_step s t e s' h.l hs, invG_step s t e s' h.l h.g hs⟩
+  ⟨invL_step s t e s' h.l hs, invG_step s t e s' h.l h.g hs, invT_step s t e s' h.l h.t hs⟩
 
 theorem inv_reachable {a : Bool} {s : St} (h : Reachable a s) : Inv s := by
   obtain ⟨es, hes⟩ := h
